@@ -269,7 +269,7 @@ const prelude = `
 (declare-datatypes ((SliceString 0)) (((mk_SliceString (arr_SliceString (Array Int String)) (len_SliceString Int)))))
 (declare-datatypes ((Node 0) (SliceNode 0) (MapNode 0)) (
   ((n_nil) (n_void) (n_null) (n_bool (bv Bool)) (n_num (nv Real)) (n_str (sv String))
-   (n_arr (kind Int) (elems SliceNode)) (n_obj (ov MapNode)))
+   (n_arr (kind Int) (elems SliceNode)) (n_obj (ov MapNode)) (n_sori (soriv String)))
   ((mk_SliceNode (arr_SliceNode (Array Int Node)) (len_SliceNode Int)))
   ((mk_MapNode (dom_MapNode (Array String Bool)) (val_MapNode (Array String Node)) (card_MapNode Int)))))
 (declare-datatypes ((PathElem 0)) (
@@ -504,6 +504,8 @@ func (u *Universe) Zero(s Sort) Term {
 		return Term{"nil_" + string(s), s}
 	case "opaque":
 		return Term{"zero_" + string(s), s}
+	case "iface":
+		return Term{"nil_" + string(s), s}
 	case "struct":
 		var args []Term
 		for _, f := range d.Fields {
